@@ -225,6 +225,56 @@ func undelegateFacts(repo string) (prefixOK bool, redeemRule int, burnRegistry b
 	return
 }
 
+// app.go: does the slashing keeper get the application's multistaking keeper by reference or a copy by value
+func slashByRef(repo string) bool {
+	f := parse(filepath.Join(repo, "app/app.go"))
+	res, found := false, 0
+	ast.Inspect(f, func(n ast.Node) bool {
+		call, ok := n.(*ast.CallExpr)
+		if !ok || src(call.Fun) != "customslashingkeeper.NewKeeper" {
+			return true
+		}
+		found++
+		if len(call.Args) != 5 {
+			die("app.go: customslashingkeeper.NewKeeper with %d arguments", len(call.Args))
+		}
+		switch src(call.Args[3]) {
+		case "multiStakingKeeper":
+			res = false
+		case "&app.MultiStakingKeeper":
+			res = true
+		default:
+			die("app.go: unknown multistaking keeper argument of the slashing keeper: %s", src(call.Args[3]))
+		}
+		return false
+	})
+	if found != 1 {
+		die("app.go: expected one customslashingkeeper.NewKeeper call, found %d", found)
+	}
+	if res && !strings.Contains(src(f), "app.MultiStakingKeeper.SetDistrKeeper(app.DistrKeeper)") {
+		die("app.go: the application's multistaking keeper never gets its distributor keeper")
+	}
+	return res
+}
+
+// slash.go: is the burn of the slashed default-denom stake skipped when there is none
+func slashGuard(repo string) bool {
+	fd := findFunc(parse(filepath.Join(repo, "x/multistaking/keeper/slash.go")), "SlashStakingPool")
+	if fd == nil {
+		die("multistaking Keeper.SlashStakingPool not found")
+	}
+	body := src(fd.Body)
+	burn := "k.bankKeeper.BurnCoins(ctx,types.ModuleName,burnAmount)iferr!=nil{panic(err)}"
+	switch {
+	case strings.Contains(body, "ifdefaultDenomAmount.IsPositive(){err:="+burn+"}"):
+		return true
+	case strings.Contains(body, "err:="+burn):
+		return false
+	}
+	die("SlashStakingPool: unknown burn of the slashed default-denom stake")
+	return false
+}
+
 func main() {
 	repo := flag.String("repo", "/repo", "repository root")
 	out := flag.String("out", "", "output .v file")
@@ -233,11 +283,12 @@ func main() {
 	er := endRule(*repo)
 	so := signersOnly(*repo)
 	po, rr, br := undelegateFacts(*repo)
+	sr, sg := slashByRef(*repo), slashGuard(*repo)
 	var b strings.Builder
 	b.WriteString("(* GENERATED by /verif/harness/cmd/gen_c10 from x/multistaking/keeper/msg_server.go (ClaimUndelegation),\n")
-	b.WriteString("   x/multistaking/keeper/delegation.go (Undelegate) and x/distributor/keeper/abci.go (BeginBlocker, EndBlocker) -- do not edit *)\n")
+	b.WriteString("   x/multistaking/keeper/delegation.go (Undelegate), x/multistaking/keeper/slash.go, app/app.go (slashing keeper wiring)\n   and x/distributor/keeper/abci.go (BeginBlocker, EndBlocker) -- do not edit *)\n")
 	b.WriteString("From Sekai Require Import Base.Prelude Model.Pools.\n")
-	b.WriteString(fmt.Sprintf("Definition tree_variant : variant := mkVariant %v %d %v %v %d %v.\n", oc, er, so, po, rr, br))
+	b.WriteString(fmt.Sprintf("Definition tree_variant : variant := mkVariant %v %d %v %v %d %v %v %v.\n", oc, er, so, po, rr, br, sr, sg))
 	if *out == "" {
 		fmt.Print(b.String())
 		return
@@ -245,5 +296,5 @@ func main() {
 	if err := os.WriteFile(*out, []byte(b.String()), 0o644); err != nil {
 		die("%v", err)
 	}
-	fmt.Fprintf(os.Stderr, "gen_c10: owner_check=%v end_rule=%d signers_only=%v prefix_ok=%v redeem_rule=%d burn_registry=%v\n", oc, er, so, po, rr, br)
+	fmt.Fprintf(os.Stderr, "gen_c10: owner_check=%v end_rule=%d signers_only=%v prefix_ok=%v redeem_rule=%d burn_registry=%v slash_byref=%v slash_guard=%v\n", oc, er, so, po, rr, br, sr, sg)
 }
